@@ -593,6 +593,19 @@ def main(replay=None):
                   op_distribution=dict(io=st_io.get("op", {}), geometry=st_obj.get("geometry", {}).get("op", {}), mesh=st_obj.get("mesh", {}).get("op", {}), sensors=dict(load=st_obj.get("sensors", {}).get("ops", 0)), linop=dict(load=st_obj.get("linop", {}).get("ops", 0))),
                   outcome_distribution=dict(io=st_io.get("fail", {}), geometry=st_obj.get("geometry", {}).get("status", {}), sensors=st_obj.get("sensors", {}).get("status", {}), mesh=st_obj.get("mesh", {}).get("status", {}), linop=st_obj.get("linop", {}).get("status", {})),
                   traces_validated_against_impl=st_io.get("seqs", 0) + sum(st_obj.get(k, {}).get("seqs", 0) for k in ("geometry", "sensors", "mesh", "linop")), io=st_io, objects=st_obj)
+    sigs = [v[0] for v in ck.violations] + [k for k, _ in ck.known_hits]
+    wit = {"io_history_independent_pinned_refuted: load Matrix f1.txt(absent); load Vector f7.xyz": any(x.startswith("io: failed-open-leaves-format") for x in sigs),
+           "io (write side): save Vector nodir/f6.txt; save Vector f7.xyz": any(x.startswith("io: failed-open-for-writing") for x in sigs),
+           "readtag_short_file_pinned_refuted: load Matrix f2.tex; load Matrix f4.xyz('asc')": any(x.startswith("io: short-file") for x in sigs),
+           "geometry_reload_pinned_refuted: load Head1+cond twice": any("(load Head1+cond; load Head1+cond)" in x for x in sigs),
+           "geometry_stale_invalid_vertices_pinned_refuted: load immersed+cond; load immersed": any("(load immersed+cond; load immersed)" in x for x in sigs),
+           "sensors_reload_pinned_refuted: load Head1.squids twice": any("(load Head1.squids; load Head1.squids)" in x for x in sigs),
+           "sensors_stale_orientations_pinned_refuted: load Head1.squids; load unlabeled-xyz": any("(load Head1.squids; load unlabeled-xyz)" in x for x in sigs),
+           "sparse_reload_pinned_refuted: SparseMatrix::load a; load b": any("SparseMatrix::load sparse-4x4-a.txt; SparseMatrix::load sparse-4x4-b.txt)" in x for x in sigs),
+           "mesh_source_flag_pinned_refuted: load Head1.tri; SurfSourceMat; load Head1.tri": any(x.startswith("mesh: status/sizes/flags") for x in sigs),
+           "mesh_reload_triangle_indices_refuted: load Head1.tri; load cortex.1.tri": any(x.startswith("mesh: load Head1.tri ; load cortex.1.tri") for x in sigs)}
+    if not replay:
+        ck.cov["refutation_witnesses_replayed_on_the_implementation"] = {k: ("reproduces" if v else "does not reproduce (repaired)") for k, v in wit.items()}
     ck.cov["trusted_base"] += ["hand-written Gallina state machines coq/Maths/IOState.v, coq/Geom/{GeomState,SensorsState,MeshState}.v tied by differential runs (harness/h_c17.cpp vs extracted extract/omm)",
                                "world tables (reader/writer outcome per content, format, kind; what one load does to a fresh Geometry/Sensors/Mesh) measured in fresh processes on the working tree",
                                "extraction: ExtrOcamlBasic only; OCaml driver extract/driver.ml"]
